@@ -251,6 +251,20 @@ class IMMachine(FormatMachine):
         self.slots[op.get("slot", 0)] = s
         return "ok"
 
+    def op_im_set_version(self, op):
+        """the caller assigns header.version on the LIVE manifest (the test suite does, to get at the pre-1.1 behaviour, and
+        back): from that call on the manifest is what the header says it is"""
+        s = self.slot(op)
+        if s is None or s.obj is None or s.tainted:
+            return "noop"
+        s.obj.header.version = op["version"]
+        s.model["version"] = op["version"]
+        vt = vtuple(op["version"])
+        if vt is not None and vt < (1, 1):
+            s.model["version_origin"] = "explicit-legacy-version"
+        CTX.probe("im.header_version_assigned_mid_history")
+        return "ok"
+
     def op_im_set(self, op):
         s = self.slot(op)
         if s is None:
